@@ -758,7 +758,7 @@ func deathSignature(d evid.WorkerDeath) string {
 func enumerate(thorough bool) []chanCase {
 	bufs := []uint32{8192, 65535}
 	if thorough {
-		bufs = []uint32{8192, 8193, 8196, 8200, 8207, 16384, 40001, 65535, 65536, 131072}
+		bufs = []uint32{8192, 8196, 8207, 16384, 65535, 65536, 131072}
 	}
 	var out []chanCase
 	for _, side := range []string{"gopcua-client", "gopcua-server"} {
@@ -825,6 +825,12 @@ func main() {
 		j := int(seed % uint64(i+1))
 		perm[i], perm[j] = perm[j], perm[i]
 	}
+	// private scratch directory: the shared default is occasionally wiped by concurrent jobs
+	scratch := ""
+	if os.Getenv("VERIF_SCRATCH") == "" && os.Getenv("VERIF_SHARD") == "" {
+		scratch = fmt.Sprintf("/tmp/verif-scratch-%s-%d", strings.ToLower(id), os.Getpid())
+		os.Setenv("VERIF_SCRATCH", scratch)
+	}
 	deaths := evid.Sharded(r, 0, func(s evid.ShardInfo, w *evid.Run) {
 		for k, idx := range perm {
 			if !s.Mine(int64(k)) {
@@ -845,11 +851,18 @@ func main() {
 			}
 		}
 	})
+	if scratch != "" {
+		os.RemoveAll(scratch)
+	}
 	for _, d := range deaths {
+		// a worker that ended without a crash trace did not die in the code under test: machinery failure
+		if !strings.Contains(d.Stderr, "panic") && !strings.Contains(d.Stderr, "fatal error") && !strings.Contains(d.ExitErr, "signal") {
+			evid.EngineError(id, "worker %d failed without a crash trace (%s), last case %q: %s", d.Shard, d.ExitErr, d.LastCase, d.Stderr)
+		}
 		r.Violate(deathSignature(d), fmt.Sprintf("worker %d died (%s) while running %s\n%s", d.Shard, d.ExitErr, d.LastCase, d.Stderr), d.LastCase)
 	}
 	r.Set("channels", len(cases))
-	r.Rule("channels = {gopcua-client, gopcua-server} x 6 policies x modes {Sign, SignAndEncrypt} (None for policy None) x (gopcua key, refcodec key) over all allowed sizes incl. unequal ones x buffer sizes (quick 8192, 65535; thorough 10 sizes incl. odd ones) x refcodec padding style {minimal, spec formula}; per channel: OPN request, OPN response, then for every body size in {min..min+17 (every AES block residue), around 1x and 2x the maximal single-chunk body for either padding style (+-2; thorough +-17), 3 chunks} one message in each direction, then CLO. One evaluation = one message in one direction (OPN/MSG/CLO) fully checked; non-trivial = under a secured policy; distinct by (channel case, body size, direction). states = chunks on the wire")
+	r.Rule("channels = {gopcua-client, gopcua-server} x 6 policies x modes {Sign, SignAndEncrypt} (None for policy None) x (gopcua key, refcodec key) over all allowed sizes incl. unequal ones x buffer sizes (quick 8192, 65535; thorough 7 sizes incl. odd ones and sizes above 64 KiB) x refcodec padding style {minimal, spec formula}; per channel: OPN request, OPN response, then for every body size in {min..min+17 (every AES block residue), around 1x and 2x the maximal single-chunk body for either padding style (+-2; thorough +-17), 3 chunks} one message in each direction, then CLO. One evaluation = one message in one direction (OPN/MSG/CLO) fully checked; non-trivial = under a secured policy; distinct by (channel case, body size, direction). states = chunks on the wire")
 	r.Assume("gopcua's nonces, RSA padding and timestamps are random/current (crypto/rand, time.Now); verdicts do not depend on them (C14 sweeps nonce values deterministically)",
 		"the expected plaintext of a gopcua message is gopcua's own ua.Encode of the service (C08 is about the secure conversation layer, not the structure codec); refcodec additionally decodes the fields it needs by hand",
 		"buffer sizes are negotiated equal in both directions; Hello/Acknowledge negotiation is not part of this property")
